@@ -49,8 +49,11 @@ def helper_function(first_argument):
 print(handler('ab', 'cd'), helper_function(2), Handler().method_name(1), sorted(n for n in dir() if not n.startswith('_')) if {DIR} else 0)
 '''
 ALL_FORMS = {'none': '', 'assign': "__all__ = ['handler', 'Handler']", 'augassign': "__all__ = []\n__all__ += ['helper_function']",
-             'annotated': "__all__: list = ['module_counter']", 'tuple-not-list': "__all__ = ('handler',)"}
-ALL_NAMES = {'none': [], 'assign': ['handler', 'Handler'], 'augassign': ['helper_function'], 'annotated': ['module_counter'], 'tuple-not-list': []}
+             'annotated': "__all__: list = ['module_counter']", 'tuple-not-list': "__all__ = ('handler',)",
+             'chained-first': "__all__ = PUBLIC_API = ['handler', 'helper_function']", 'chained-second': "PUBLIC_API = __all__ = ['Handler', 'module_counter']",
+             'two-assignments': "__all__ = ['handler']\n__all__ = __all__ + []\n__all__ += ['shared_message']"}
+ALL_NAMES = {'none': [], 'assign': ['handler', 'Handler'], 'augassign': ['helper_function'], 'annotated': ['module_counter'], 'tuple-not-list': [],
+             'chained-first': ['handler', 'helper_function'], 'chained-second': ['Handler', 'module_counter'], 'two-assignments': ['handler', 'shared_message']}
 
 LOCAL_LISTS = [[], ['local_value'], ['local_value', 'another_local'], ['first_argument'], ['loop_variable'], ['nested_local', 'inner_argument'], ['absent_name'], ['len']]
 GLOBAL_LISTS = [[], ['handler'], ['helper_function', 'Handler'], ['module_counter', 'shared_message'], ['absent_name'], ['os'], ['print', 'len']]
